@@ -1,5 +1,6 @@
 /- Line-protocol handlers for the filters (C10): model evaluation and specification evaluation. -/
 import PandoraModel.Model.Filter
+import PandoraModel.Model.FilterIntervals
 
 namespace Pandora.Driver.C10
 open Lean (Json)
@@ -162,9 +163,34 @@ def specFlags (j : Json) : Except String Json := do
       else [if allowed then "bit11_only" else "mask_unchanged"])
     (fun r c => [("flag", natToJson (flags r c)), ("out", natToJson (out r c))])
 
+/-- `C10.intervals_step`: the whole `median_for_intervals` step (`Model/FilterIntervals.lean`): median of the two
+    bands, then — with regularisation — C12's `interval_regularization` model producing the final bands and
+    `mask_regularization`, `|=` of the bit, `mask_border` when `offset > 0` -/
+def intervalsStep (j : Json) : Except String Json := do
+  let (ny, nx) ← dims j
+  let s ← field j "split" >>= splitOfJson
+  let bit ← field j "bit" >>= natOfJson
+  let off ← natOfJson (fieldD j "offset" (natToJson 0))
+  let cfg : FilterIntervals.Cfg :=
+    { fs := ← field j "fs" >>= natOfJson,
+      regularization := ← field j "regularization" >>= boolOfJson,
+      thr := ← field j "threshold" >>= ratOfJson,
+      kernel := ← field j "kernel" >>= natOfJson,
+      depth := ← field j "depth" >>= natOfJson,
+      quantile := ← field j "quantile" >>= ratOfJson }
+  let inf ← field j "inf" >>= (imgOfJson · ny nx "inf")
+  let sup ← field j "sup" >>= (imgOfJson · ny nx "sup")
+  let amb ← field j "amb" >>= (imgOfJson · ny nx "amb")
+  let flags ← field j "flags" >>= (natGridOfJson · ny nx "flags")
+  let out := FilterIntervals.medianForIntervals s bit off cfg ny nx inf sup amb flags
+  return mkObj [("inf", imgToJson ny nx out.inf), ("sup", imgToJson ny nx out.sup),
+                ("flags", gridToJson natToJson (Blocks.tabulate ny nx out.flags)),
+                ("reg", gridToJson Json.bool (Blocks.tabulate ny nx out.regMask))]
+
 def handle (op : String) (j : Json) : Except String Json :=
   match op with
   | "C10.median" => median j
+  | "C10.intervals_step" => intervalsStep j
   | "C10.median_band" => medianBand j
   | "C10.bilateral" => bilateral j
   | "C10.win" => winOp j
